@@ -104,7 +104,7 @@ def run(ctx):
     f = ctx.fn(A + "into_inner")
     if f:
         rets = ctx.ret_values(f)
-        ctx.ob("C05.into_inner.take", f.key, "return", rets == ["(core::option::Option::<T>::take(self.0) as Some).0"], "returns %s" % rets)
+        ctx.ob("C05.into_inner.take", f.key, "return", rets == ["(self.0 as Some).0"] and len(ctx.find_calls(f, r"^core::option::Option::<T>::take$|^core::mem::take$")) == 1, "returns %s" % rets)
     dflt = ctx.fn("<%s as core::default::Default>::default" % ACC)
     if dflt:
         rets = ctx.ret_values(dflt)
